@@ -220,9 +220,24 @@ def _get_module_namespace(module):
     return _get_namespace_components(namespace)
 
 
-def _cpp_string_escape(string):
-    # (In a replacement string, `\0` would be a NUL character, not the match.)
-    return re.sub("['\"\\\\]", r"\\\g<0>", string)
+def _verify_imports_can_be_included(module):
+    """Checks that the names of imported files can be written in #include "..."."""
+    # A header name is not a string literal: there are no escape sequences, so
+    # `bob's_types.emb.h` is written as it is, and a name that contains a double
+    # quote or a line break cannot be written at all.
+    errors = []
+    for import_ in module.foreign_import:
+        if '"' in import_.file_name.text or "\n" in import_.file_name.text:
+            errors.append(
+                [
+                    error.error(
+                        module.source_file_name,
+                        import_.file_name.source_location,
+                        "File name cannot be used in a C++ #include directive.",
+                    )
+                ]
+            )
+    return errors
 
 
 def _get_includes(module, config: Config):
@@ -233,21 +248,21 @@ def _get_includes(module, config: Config):
             includes.append(
                 code_template.format_template(
                     _TEMPLATES.include,
-                    file_name=_cpp_string_escape(import_.file_name.text + ".h"),
+                    file_name=import_.file_name.text + ".h",
                 )
             )
         else:
             includes.append(
                 code_template.format_template(
                     _TEMPLATES.include,
-                    file_name=_cpp_string_escape(_PRELUDE_INCLUDE_FILE),
+                    file_name=_PRELUDE_INCLUDE_FILE,
                 )
             )
             if config.include_enum_traits:
                 includes.extend(
                     [
                         code_template.format_template(
-                            _TEMPLATES.include, file_name=_cpp_string_escape(file_name)
+                            _TEMPLATES.include, file_name=file_name
                         )
                         for file_name in (
                             _ENUM_VIEW_INCLUDE_FILE,
@@ -2264,7 +2279,7 @@ def _propagate_defaults_and_verify_attributes(ir):
         add_fn=_add_missing_enum_case_attribute_on_enum_value,
     )
 
-    errors = []
+    errors = _verify_imports_can_be_included(ir.module[0])
     traverse_ir.fast_traverse_ir_top_down(
         ir,
         [ir_data.Enum],
